@@ -171,14 +171,20 @@ flow asking
 """
 
 
+V2_MAIN_LLM = """
+flow main
+  activate llm continuation
+"""
+
+
 def v2_world(in_order=(), out_order=(), dialog=False, exceptions=False, extra_colang="", main=None):
-    colang = "import core\nimport guardrails\n"
+    colang = "import core\nimport guardrails\n" + ("import llm\n" if dialog == "llm" else "")
     colang += "".join(v2_rail(r, "input") for r in IN_RAILS) + "".join(v2_rail(r, "output") for r in OUT_RAILS)
     if in_order:
         colang += "\nflow input rails $input_text\n" + "".join(f"  {r} $input_text\n" for r in in_order)
     if out_order:
         colang += "\nflow output rails $output_text\n" + "".join(f"  {r} $output_text\n" for r in out_order)
-    colang += main if main is not None else (V2_MAIN_DIALOG if dialog else V2_MAIN_NODIALOG)
+    colang += main if main is not None else (V2_MAIN_LLM if dialog == "llm" else (V2_MAIN_DIALOG if dialog else V2_MAIN_NODIALOG))
     colang += extra_colang
     yaml = 'colang_version: "2.x"\n'
     if exceptions:
